@@ -23,7 +23,10 @@ META = {
                   'a larger ring silently uses 2^32 cells - outside the claim); termination of ringbuf_putchar is not claimed; evaluation order of the two loads in ringbuf_empty is taken from the source order (confirmed by the run-time log for the compiled harness).',
     'design_ref': '§6 C05',
 }
-REQUIRED = []
+REQUIRED = ['Librfn.C05.' + t for t in (
+    'wrap_eq', 'init_inv', 'step_inv', 'ring_inv', 'ring_inv_acts', 'delivered_in_order_once', 'get_returns_unsigned_byte', 'put_true_appends',
+    'put_fails_only_if_full', 'get_minus1_only_if_empty', 'empty_true_only_if_empty', 'indices_in_bounds', 'no_overwrite_before_read',
+    'ring_no_adjacent_conflict')]
 LENS = [2, 3, 4, 5, 16]
 
 
